@@ -29,6 +29,7 @@ floating-point evaluation does not distort them (the theorems are about the mode
 import DPL.Proofs.SamplersLogReg
 import DPL.Proofs.SamplersNoiseNorm
 import DPL.Proofs.SamplersNoiseNormJoint
+import DPL.Proofs.LogRegCMS2
 
 namespace DPL.C17
 open DPL DPL.Smp DPL.LogReg
@@ -505,5 +506,282 @@ example := fit_noise_vector_law 1 1 1 2 3 10 true (by norm_num) (by norm_num) (b
   (by norm_num) (by simp)
 example := fit_noise_vector_law 1 1 1 2 3 10 false (by norm_num) (by norm_num) (by norm_num) (by norm_num)
   (by norm_num) (by simp)
+
+/-! ### 7. towards CMS Theorem 9 itself (was: cited)
+
+What the proof of CMS Theorem 9 needs, and what is now a theorem:
+  (a) the loss is convex, differentiable, `|ℓ′| ≤ 1`, `0 ≤ ℓ″ ≤ c` — `logistic_loss_hypotheses`, with `c = ¼` the code's
+      `function_sensitivity` (`logistic_c_is_quarter`);
+  (b) noise-density ratio ≤ `e^{ε′}` for the density `∝ e^{−ε′‖b‖/(2s)}` that `noise_vector_law` proves the sampler has —
+      `per_record_gradient_bound`, `noise_vectors_close`, `noise_density_ratio_le`;
+  (c) Jacobian ratio ≤ `(1 + c·s²/(n(Λ+Δ)))²` (CMS Lemma 10) — proved in rank one (`rank_one_jacobian`, bound ATTAINED) and
+      in dimension one; in general it stays a hypothesis of `cms_theorem9_reduced`;
+  (d) the budget split `e^{ε′}·(1 + c·s²/(α+nΔ))² ≤ e^{ε}` — `cms_privacy_budget_split`, for `s ≤ 1` ONLY: the code pays for
+      `c·s/α` where the Jacobian costs `c·s²/α`, so for `s > 1` the split FAILS (`cms_privacy_budget_split_cex`); with an
+      intercept `s = √(norm²+1) > 1` whenever `norm > 0` (`call_site_intercept_s_gt_one`);
+  (e) the change-of-variables formula for the minimiser map — hypothesis `CMS.ChangeOfVariables` (CMS Section 3.3).
+`cms_theorem9_reduced` assembles (a)–(e); `cms_theorem9_reduced_dim_one` needs (e) only.  `cms_density_cex`: for `s = 10` the
+change-of-variables densities themselves differ by more than `e^{ε}` at a point (so the gap for `s > 1` is in the release, not
+only in the proof).  `cms_theorem9_full` (a `def … : Prop`) is the unconditional statement, not proved. -/
+
+section CMS9
+open CMS MeasureTheory
+
+/-- the hypotheses of CMS Theorem 9 on the loss hold for `ℓ(z) = log(1 + e^{−z})`: differentiable with
+`ℓ′ = −1/(1+e^z) ∈ (−1, 0)`, twice differentiable with `ℓ″ = e^z/(1+e^z)² ∈ (0, ¼]`, convex -/
+theorem logistic_loss_hypotheses :
+    (∀ z, HasDerivAt logistic (-1 / (1 + Real.exp z)) z) ∧
+    (∀ z, HasDerivAt (fun t => -1 / (1 + Real.exp t)) (Real.exp z / (1 + Real.exp z) ^ 2) z) ∧
+    (∀ z : ℝ, -1 < -1 / (1 + Real.exp z) ∧ -1 / (1 + Real.exp z) < 0 ∧ |(-1) / (1 + Real.exp z)| ≤ 1) ∧
+    (∀ z : ℝ, 0 < Real.exp z / (1 + Real.exp z) ^ 2 ∧ Real.exp z / (1 + Real.exp z) ^ 2 ≤ 1 / 4) ∧
+    ConvexOn ℝ Set.univ logistic ∧ StrictConvexOn ℝ Set.univ logistic :=
+  ⟨hasDerivAt_logistic, hasDerivAt_logistic',
+    fun z => ⟨logistic'_gt z, logistic'_neg z, abs_logistic'_le z⟩,
+    fun z => ⟨logistic''_pos z, logistic''_le z⟩, convexOn_logistic, strictConvexOn_logistic⟩
+
+/-- `function_sensitivity = 0.25` at the call site IS the curvature bound of the logistic loss, and it is the best one
+(attained at margin 0) -/
+theorem logistic_c_is_quarter (eps C norm : ℝ) (k d n : Nat) (ic : Bool) :
+    (callSite eps C norm k d n ic).c = 1 / 4 ∧
+    (∀ z, logistic'' z ≤ (callSite eps C norm k d n ic).c) ∧
+    logistic'' 0 = (callSite eps C norm k d n ic).c := by
+  have h : (callSite eps C norm k d n ic).c = 1 / 4 := by simp [callSite]
+  exact ⟨h, fun z => h ▸ logistic''_le z, h ▸ logistic''_zero⟩
+
+/-- rows of norm ≤ s, labels ±1: the per-record gradient `ℓ′(y⟪w,x⟫)·y•x` (it IS the gradient: `CMS.recGrad_is_gradient`)
+has norm ≤ s, and the per-record Hessian weight is in `(0, ¼]` -/
+theorem per_record_gradient_bound {d : ℕ} (x w : EuclideanSpace ℝ (Fin d)) (y s : ℝ) (hx : ‖x‖ ≤ s)
+    (hy : y = 1 ∨ y = -1) :
+    ‖recGrad x y w‖ ≤ s ∧ 0 < recCurv x y w ∧ recCurv x y w ≤ 1 / 4 :=
+  ⟨norm_recGrad_le x y w s hx hy, recCurv_bounds x y w hy⟩
+
+/-- same minimiser `w` on neighbouring data sets (shared gradient sum `G`, differing records `(x,y)`, `(x',y')`): the two
+noise vectors solving the stationarity equation `A•w + G + g + b = 0` are within `2s` -/
+theorem noise_vectors_close {d : ℕ} (A s : ℝ) (w G x x' : EuclideanSpace ℝ (Fin d)) (y y' : ℝ)
+    (hx : ‖x‖ ≤ s) (hx' : ‖x'‖ ≤ s) (hy : y = 1 ∨ y = -1) (hy' : y' = 1 ∨ y' = -1) :
+    ‖noiseFor A w G (recGrad x y w) - noiseFor A w G (recGrad x' y' w)‖ ≤ 2 * s :=
+  noiseFor_diff_le A s w G _ _ (norm_recGrad_le x y w s hx hy) (norm_recGrad_le x' y' w s hx' hy')
+
+/-- the noise-density ratio step with the model's rate `β = ε′/(2s)` (the rate in `noise_vector_law`), both branches:
+`ν(b) ≤ e^{ε′}·ν(b′)` whenever `‖b − b′‖ ≤ 2s`; and the general `ν(b)/ν(b′) ≤ e^{β‖b−b′‖}` -/
+theorem noise_density_ratio_le {d : ℕ} (eps c s alpha : ℝ) (n : Nat) (he : 0 < eps) (hc : 0 ≤ c) (hs : 0 < s)
+    (ha : 0 < alpha) (hn : 0 < n) (b b' : EuclideanSpace ℝ (Fin d)) :
+    let K := vectorCalib eps c s alpha n
+    Real.exp (-(K.epsP / (2 * s)) * ‖b‖) / Real.exp (-(K.epsP / (2 * s)) * ‖b'‖)
+      ≤ Real.exp (K.epsP / (2 * s) * ‖b - b'‖) ∧
+    (‖b - b'‖ ≤ 2 * s →
+      Real.exp (-(K.epsP / (2 * s)) * ‖b‖) ≤ Real.exp K.epsP * Real.exp (-(K.epsP / (2 * s)) * ‖b'‖)) := by
+  intro K
+  obtain ⟨h1, -, -, -⟩ := cms_calibration eps c s alpha n he hc hs.le ha hn
+  exact ⟨noise_density_ratio _ (div_nonneg h1.le (by positivity)) b b', noise_density_le K.epsP s h1.le hs b b'⟩
+
+/-- what the code's rule pays for, exactly: `e^{ε′}·(1 + c·s/(α+nΔ))² = e^{ε}` (exponentiated `cms_calibration`) -/
+theorem cms_budget_exact (eps c s alpha : ℝ) (n : Nat) (he : 0 < eps) (hc : 0 ≤ c) (hs : 0 ≤ s) (ha : 0 < alpha)
+    (hn : 0 < n) :
+    let K := vectorCalib eps c s alpha n
+    0 < alpha + n * K.delta ∧
+    Real.exp K.epsP * (1 + c * s / (alpha + n * K.delta)) ^ 2 = Real.exp eps := by
+  intro K
+  obtain ⟨-, h2, h3, -⟩ := cms_calibration eps c s alpha n he hc hs ha hn
+  have hA : 0 < alpha + n * K.delta := by
+    have : 0 ≤ (n : ℝ) * K.delta := mul_nonneg (Nat.cast_nonneg n) h2
+    linarith
+  have hX : 0 < 1 + c * s / (alpha + n * K.delta) := by
+    have : 0 ≤ c * s / (alpha + n * K.delta) := div_nonneg (mul_nonneg hc hs) hA.le
+    linarith
+  refine ⟨hA, ?_⟩
+  rw [← h3, Real.exp_add, two_mul, Real.exp_add, Real.exp_log hX]
+  ring
+
+/-- **budget split of CMS Theorem 9 for the model's calibration, rows of norm `s ≤ 1`**: noise ratio `e^{ε′}` times Jacobian
+ratio `(1 + c·s²/(α+nΔ))²` (`α + nΔ = n(Λ+Δ)`) stays within `e^{ε}`, in both branches of the rule -/
+theorem cms_privacy_budget_split (eps c s alpha : ℝ) (n : Nat) (he : 0 < eps) (hc : 0 ≤ c) (hs : 0 ≤ s) (hs1 : s ≤ 1)
+    (ha : 0 < alpha) (hn : 0 < n) :
+    let K := vectorCalib eps c s alpha n
+    Real.exp K.epsP * (1 + c * s ^ 2 / (alpha + n * K.delta)) ^ 2 ≤ Real.exp eps := by
+  intro K
+  obtain ⟨hA, hE⟩ := cms_budget_exact eps c s alpha n he hc hs ha hn
+  rw [← hE]
+  apply mul_le_mul_of_nonneg_left _ (Real.exp_pos _).le
+  have h1 : c * s ^ 2 / (alpha + n * K.delta) ≤ c * s / (alpha + n * K.delta) := by
+    apply div_le_div_of_nonneg_right _ hA.le
+    have : s ^ 2 ≤ s := by nlinarith
+    exact mul_le_mul_of_nonneg_left this hc
+  have h0 : 0 ≤ c * s ^ 2 / (alpha + n * K.delta) := div_nonneg (mul_nonneg hc (sq_nonneg s)) hA.le
+  exact pow_le_pow_left₀ (by linarith) (by linarith) 2
+
+/-- **for rows of norm `s > 1` the split FAILS** (any `c > 0`, both branches): the product of the two ratios that the CMS
+proof bounds exceeds `e^{ε}` — the code charges `c·s/α` for a Jacobian that costs `c·s²/α` (`rank_one_jacobian`) -/
+theorem cms_privacy_budget_split_cex (eps c s alpha : ℝ) (n : Nat) (he : 0 < eps) (hc : 0 < c) (hs1 : 1 < s)
+    (ha : 0 < alpha) (hn : 0 < n) :
+    let K := vectorCalib eps c s alpha n
+    Real.exp eps < Real.exp K.epsP * (1 + c * s ^ 2 / (alpha + n * K.delta)) ^ 2 := by
+  intro K
+  have hs : 0 ≤ s := by linarith
+  obtain ⟨hA, hE⟩ := cms_budget_exact eps c s alpha n he hc.le hs ha hn
+  rw [← hE]
+  apply mul_lt_mul_of_pos_left _ (Real.exp_pos _)
+  have h1 : c * s / (alpha + n * K.delta) < c * s ^ 2 / (alpha + n * K.delta) := by
+    apply div_lt_div_of_pos_right _ hA
+    have : s < s ^ 2 := by nlinarith
+    exact mul_lt_mul_of_pos_left this hc
+  have h0 : 0 ≤ c * s / (alpha + n * K.delta) := div_nonneg (mul_nonneg hc.le hs) hA.le
+  exact pow_lt_pow_left₀ (by linarith) (by linarith) (by norm_num)
+
+/-- with an intercept the call site's `s` exceeds 1 as soon as `data_norm > 0`: the region of `cms_privacy_budget_split`
+is left, that of `cms_privacy_budget_split_cex` entered -/
+theorem call_site_intercept_s_gt_one (eps C norm : ℝ) (k d n : Nat) (hnorm : 0 < norm) :
+    1 < (callSite eps C norm k d n true).s := by
+  rw [(call_site_arguments eps C norm k d n).2.2.1]
+  rw [Real.lt_sqrt (by norm_num)]
+  have : 0 < norm ^ 2 := by positivity
+  linarith
+
+/-- CMS Lemma 10, rank-one case, as a determinant over `Matrix (Fin d) (Fin d) ℝ`: `det(I + u vᵀ) = 1 + v·u`; for one record's
+Hessian `a·x xᵀ` (`0 ≤ a ≤ c`, `‖x‖² ≤ s²`) over `A·I`: `|det(I + (a/A) x xᵀ)| ≤ 1 + c·s²/A`, with EQUALITY at `a = c`, `‖x‖² = s²` -/
+theorem rank_one_jacobian {d : ℕ} (u v x : Fin d → ℝ) (a A c s : ℝ) (hA : 0 < A) (ha : 0 ≤ a) (hac : a ≤ c)
+    (hx : x ⬝ᵥ x ≤ s ^ 2) :
+    (1 + Matrix.vecMulVec u v).det = 1 + v ⬝ᵥ u ∧
+    |(1 + Matrix.vecMulVec ((a / A) • x) x).det| ≤ 1 + c * s ^ 2 / A ∧
+    (x ⬝ᵥ x = s ^ 2 → (1 + Matrix.vecMulVec ((c / A) • x) x).det = 1 + c * s ^ 2 / A) :=
+  ⟨det_one_add_rank_one u v, (det_rank_one_update x a A c s hA ha hac hx).2.2,
+    fun h => det_rank_one_update_attained x A c s h⟩
+
+/-- **CMS Theorem 9, reduced to the change of variables** — for the model's calibration `(ε′, Δ)` (both branches), rows of norm
+`≤ s ≤ 1`, labels ±1, `c = ¼`: IF the released minimiser has the change-of-variables density on both neighbouring data sets
+(`CMS.ChangeOfVariables`, noise density `Z·e^{−ε′‖b‖/(2s)}` = the law of `noise_vector_law`, noise maps from stationarity with
+`A = α + nΔ`) and the Jacobians obey CMS Lemma 10 (`jac ≤ (1 + ¼s²/A)²·jac'`; proved here in rank one and in dimension one),
+THEN the release is ε-DP.  Loss hypotheses, gradient bound, noise ratio and budget split are discharged. -/
+theorem cms_theorem9_reduced {d : ℕ} (eps s alpha : ℝ) (n : Nat) (he : 0 < eps) (hs : 0 < s) (hs1 : s ≤ 1)
+    (ha : 0 < alpha) (hn : 0 < n)
+    (μ μ' : Measure (EuclideanSpace ℝ (Fin d))) (Z : ℝ) (hZ : 0 ≤ Z)
+    (G : EuclideanSpace ℝ (Fin d) → EuclideanSpace ℝ (Fin d)) (x x' : EuclideanSpace ℝ (Fin d)) (y y' : ℝ)
+    (hx : ‖x‖ ≤ s) (hx' : ‖x'‖ ≤ s) (hy : y = 1 ∨ y = -1) (hy' : y' = 1 ∨ y' = -1)
+    (jac jac' : EuclideanSpace ℝ (Fin d) → ℝ) :
+    let K := vectorCalib eps (1 / 4) s alpha n
+    let A := alpha + n * K.delta
+    ChangeOfVariables volume μ (K.epsP / (2 * s)) Z (fun w => noiseFor A w (G w) (recGrad x y w)) jac →
+    ChangeOfVariables volume μ' (K.epsP / (2 * s)) Z (fun w => noiseFor A w (G w) (recGrad x' y' w)) jac' →
+    (∀ w, 0 ≤ jac' w ∧ jac w ≤ (1 + 1 / 4 * s ^ 2 / A) ^ 2 * jac' w) →
+    ∀ S, MeasurableSet S → μ S ≤ ENNReal.ofReal (Real.exp eps) * μ' S := by
+  intro K A hcov hcov' hjac S hS
+  obtain ⟨h1, -, -, -⟩ := cms_calibration eps (1 / 4) s alpha n he (by norm_num) hs.le ha hn
+  exact dp_logistic_of_change_of_variables volume μ μ' eps K.epsP s Z _ A G x x' y y' jac jac' h1.le hs hZ
+    (sq_nonneg _) hx hx' hy hy' hcov hcov' hjac
+    (cms_privacy_budget_split eps (1 / 4) s alpha n he (by norm_num) hs.le hs1 ha hn) S hS
+
+/-- non-vacuity: all hypotheses of `cms_theorem9_reduced` are satisfiable together (identical records, `jac = 1`) -/
+example : ∃ (x x' : EuclideanSpace ℝ (Fin 2)) (jac jac' : EuclideanSpace ℝ (Fin 2) → ℝ),
+    let K := vectorCalib (1 : ℝ) (1 / 4) 1 1 10
+    let A := (1 : ℝ) + (10 : ℕ) * K.delta
+    (‖x‖ ≤ 1 ∧ ‖x'‖ ≤ 1 ∧ ∀ w, 0 ≤ jac' w ∧ jac w ≤ (1 + 1 / 4 * (1 : ℝ) ^ 2 / A) ^ 2 * jac' w) ∧
+    ∃ μ μ' : Measure (EuclideanSpace ℝ (Fin 2)),
+      ChangeOfVariables volume μ (K.epsP / (2 * 1)) 1 (fun w => noiseFor A w 0 (recGrad x 1 w)) jac ∧
+      ChangeOfVariables volume μ' (K.epsP / (2 * 1)) 1 (fun w => noiseFor A w 0 (recGrad x' 1 w)) jac' := by
+  refine ⟨0, 0, fun _ => 1, fun _ => 1, ?_⟩
+  intro K A
+  refine ⟨⟨by simp, by simp, fun w => ⟨zero_le_one, ?_⟩⟩, _, _, rfl, rfl⟩
+  obtain ⟨hA, -⟩ := cms_budget_exact 1 (1 / 4) 1 1 10 (by norm_num) (by norm_num) (by norm_num) (by norm_num)
+    (by norm_num)
+  have h0 : 0 ≤ 1 / 4 * (1 : ℝ) ^ 2 / A := div_nonneg (by norm_num) hA.le
+  nlinarith
+
+/-- **dimension one: only the change of variables is assumed.**  One feature, no intercept, rows `|x| ≤ s ≤ 1`: the Jacobians
+are `A + M0 w + ℓ″(y·w·x)·x²` (`M0 ≥ 0` the shared records' curvature), Lemma 10 is `CMS.jacobian_ratio_dim_one` -/
+theorem cms_theorem9_reduced_dim_one (eps s alpha : ℝ) (n : Nat) (he : 0 < eps) (hs : 0 < s) (hs1 : s ≤ 1)
+    (ha : 0 < alpha) (hn : 0 < n) (μ μ' : Measure ℝ) (Z : ℝ) (hZ : 0 ≤ Z) (G M0 : ℝ → ℝ) (hM : ∀ w, 0 ≤ M0 w)
+    (x x' y y' : ℝ) (hx : |x| ≤ s) (hx' : |x'| ≤ s) (hy : y = 1 ∨ y = -1) (hy' : y' = 1 ∨ y' = -1) :
+    let K := vectorCalib eps (1 / 4) s alpha n
+    let A := alpha + n * K.delta
+    ChangeOfVariables volume μ (K.epsP / (2 * s)) Z (fun w => noiseFor A w (G w) (recGrad x y w))
+      (fun w => A + M0 w + recCurv x y w * x ^ 2) →
+    ChangeOfVariables volume μ' (K.epsP / (2 * s)) Z (fun w => noiseFor A w (G w) (recGrad x' y' w))
+      (fun w => A + M0 w + recCurv x' y' w * x' ^ 2) →
+    ∀ S, MeasurableSet S → μ S ≤ ENNReal.ofReal (Real.exp eps) * μ' S := by
+  intro K A hcov hcov' S hS
+  obtain ⟨h1, -, -, -⟩ := cms_calibration eps (1 / 4) s alpha n he (by norm_num) hs.le ha hn
+  obtain ⟨hA, -⟩ := cms_budget_exact eps (1 / 4) s alpha n he (by norm_num) hs.le ha hn
+  have hsplit := cms_privacy_budget_split eps (1 / 4) s alpha n he (by norm_num) hs.le hs1 ha hn
+  refine dp_logistic_dim_one volume μ μ' eps K.epsP s Z A G M0 x x' y y' h1.le hs hZ hA hM hx hx' hy hy' hcov hcov'
+    (le_trans ?_ hsplit) S hS
+  apply mul_le_mul_of_nonneg_left _ (Real.exp_pos _).le
+  have h0 : 0 ≤ 1 / 4 * s ^ 2 / A := div_nonneg (by positivity) hA.le
+  nlinarith
+
+/-- non-vacuity in dimension one: the two change-of-variables hypotheses hold for the measures they define -/
+example : ∃ μ μ' : Measure ℝ,
+    let K := vectorCalib (1 : ℝ) (1 / 4) 1 1 10
+    let A := (1 : ℝ) + (10 : ℕ) * K.delta
+    ChangeOfVariables volume μ (K.epsP / (2 * 1)) 1 (fun w => noiseFor A w 0 (recGrad (1 : ℝ) 1 w))
+      (fun w => A + 0 + recCurv (1 : ℝ) 1 w * (1 : ℝ) ^ 2) ∧
+    ChangeOfVariables volume μ' (K.epsP / (2 * 1)) 1 (fun w => noiseFor A w 0 (recGrad (0 : ℝ) (-1) w))
+      (fun w => A + 0 + recCurv (0 : ℝ) (-1) w * (0 : ℝ) ^ 2) :=
+  ⟨_, _, rfl, rfl⟩
+
+/-- **not only the proof, the release itself**: one feature, no intercept, `data_norm = s = 10`, `C = 1` (α = 1), `n = 1`,
+`ε = 2·log(7/2) + 1/10` (plain branch: `ε′ = 1/10`, `Δ = 0`), data sets `{(x,y) = (10, 1)}` and `{(0, 1)}`: at `w = 0` the
+change-of-variables density of the first exceeds `e^{ε}` times that of the second (`26·e^{−1/40}` against `e^{ε} = 12.25·e^{1/10}`);
+both densities are continuous in `w`, so — granted `CMS.ChangeOfVariables` — the release is NOT ε-DP for this `data_norm > 1` -/
+theorem cms_density_cex :
+    let eps : ℝ := 2 * Real.log (7 / 2) + 1 / 10
+    let K := vectorCalib eps (1 / 4) 10 1 1
+    let A : ℝ := 1 + (1 : ℕ) * K.delta
+    Real.exp eps * (Real.exp (-(K.epsP / (2 * 10)) * ‖noiseFor A (0 : ℝ) 0 (recGrad (0 : ℝ) 1 0)‖)
+        * (A + 0 + recCurv (0 : ℝ) 1 0 * (0 : ℝ) ^ 2))
+      < Real.exp (-(K.epsP / (2 * 10)) * ‖noiseFor A (0 : ℝ) 0 (recGrad (10 : ℝ) 1 0)‖)
+        * (A + 0 + recCurv (10 : ℝ) 1 0 * (10 : ℝ) ^ 2) := by
+  intro eps K A
+  have hX : (1 + 1 / 4 * 10 / 1 : ℝ) = 7 / 2 := by norm_num
+  have hK : K.epsP = 1 / 10 ∧ K.delta = 0 := by
+    have hne : ¬ (eps - 2 * Real.log (7 / 2) ≤ 0) := by simp only [eps]; norm_num
+    simp only [K, vectorCalib, transc_log, hX, if_neg hne]
+    exact ⟨by simp only [eps]; ring, trivial⟩
+  have hA : A = 1 := by simp only [A, hK.2]; norm_num
+  have hl' : logistic' 0 = -1 / 2 := by unfold logistic'; rw [Real.exp_zero]; norm_num
+  have hg0 : noiseFor A (0 : ℝ) 0 (recGrad (0 : ℝ) 1 0) = 0 := by simp [noiseFor, recGrad]
+  have hg1 : noiseFor A (0 : ℝ) 0 (recGrad (10 : ℝ) 1 0) = 5 := by
+    simp only [noiseFor, recGrad, inner_zero_left, mul_zero, hl', smul_eq_mul]; norm_num
+  have hc : recCurv (10 : ℝ) 1 0 = 1 / 4 := by
+    simp only [recCurv, inner_zero_left, mul_zero, logistic''_zero]; norm_num
+  rw [hg0, hg1, hc, hA, hK.1, norm_zero, mul_zero, Real.exp_zero]
+  have h5 : ‖(5 : ℝ)‖ = 5 := by norm_num
+  rw [h5]
+  have he : Real.exp eps = 49 / 4 * Real.exp (1 / 10) := by
+    simp only [eps]
+    rw [Real.exp_add, two_mul, Real.exp_add, Real.exp_log (by norm_num)]; ring
+  rw [he]
+  have e1 : Real.exp (1 / 10) < 10 / 9 := by
+    have := Real.exp_bound_div_one_sub_of_interval' (x := 1 / 10) (by norm_num) (by norm_num)
+    norm_num at this ⊢; linarith
+  have e2 : 39 / 40 ≤ Real.exp (-(1 / 10 / (2 * 10)) * 5) := by
+    have := Real.add_one_le_exp (-(1 / 10 / (2 * 10)) * 5 : ℝ)
+    norm_num at this ⊢; linarith
+  nlinarith [Real.exp_pos (1 / 10)]
+
+/-- the stationarity equation (times n) of the perturbed objective on the data set `D` (rows with labels), total quadratic
+coefficient `A = α + nΔ`: `A•w + Σ_i ∇ℓ_i(w) + b = 0` -/
+def Stationary {d : ℕ} (A : ℝ) (D : List (EuclideanSpace ℝ (Fin d) × ℝ)) (b w : EuclideanSpace ℝ (Fin d)) : Prop :=
+  A • w + (D.map fun r => recGrad r.1 r.2 w).sum + b = 0
+
+/-- **the full statement (NOT proved)**: CMS Theorem 9 for the model's calibration, unconditionally.  For rows of norm
+`≤ s ≤ 1`, labels ±1, neighbouring data sets `r :: R`, `r' :: R`, noise `b` with the law of `noise_vector_law`, and `wOf`/`wOf'`
+the (measurable) minimiser maps, characterised by stationarity, the released minimiser is ε-DP.  What separates it from
+`cms_theorem9_reduced`: `CMS.ChangeOfVariables` (existence/uniqueness/differentiability of the minimiser map and the
+change-of-variables formula) and CMS Lemma 10 beyond rank one / dimension one.  The restriction `s ≤ 1` is essential for the
+CMS accounting (`cms_privacy_budget_split_cex`). -/
+def cms_theorem9_full : Prop :=
+  ∀ (d : ℕ) (eps s alpha : ℝ) (n : Nat), 0 < d → 0 < eps → 0 < s → s ≤ 1 → 0 < alpha → 0 < n →
+  ∀ (R : List (EuclideanSpace ℝ (Fin d) × ℝ)) (r r' : EuclideanSpace ℝ (Fin d) × ℝ),
+    R.length + 1 = n → (∀ q ∈ r :: r' :: R, ‖q.1‖ ≤ s ∧ (q.2 = 1 ∨ q.2 = -1)) →
+  ∀ wOf wOf' : EuclideanSpace ℝ (Fin d) → EuclideanSpace ℝ (Fin d), Measurable wOf → Measurable wOf' →
+    let K := vectorCalib eps (1 / 4) s alpha n
+    (∀ b, Stationary (alpha + n * K.delta) (r :: R) b (wOf b)) →
+    (∀ b, Stationary (alpha + n * K.delta) (r' :: R) b (wOf' b)) →
+    let noise := ((sphereUniform (EuclideanSpace ℝ (Fin d))).prod
+        (ProbabilityTheory.gammaMeasure (d : ℝ) (K.epsP / (2 * s)))).map
+        (fun q : EuclideanSpace ℝ (Fin d) × ℝ => q.2 • q.1)
+    ∀ S, MeasurableSet S → (noise.map wOf) S ≤ ENNReal.ofReal (Real.exp eps) * (noise.map wOf') S
+
+end CMS9
 
 end DPL.C17
